@@ -138,7 +138,7 @@ func c02Suffix(key string) string {
 // HarnessC02Filter: authenticated user + client-supplied headers of the Impersonate-* family -> impersonation filter ->
 // impersonating transport wrapper. What is forwarded carries exactly the effective identity and no client-supplied
 // Impersonate-* header; denied / malformed impersonation is answered by the gateway.
-// verif:bounds authenticated user name 1..3 bytes, <= 1 group; client headers: optional Impersonate-User (<= 3 arbitrary bytes or a well-formed service-account name), optional Impersonate-Group (1 value: <= 2 arbitrary bytes or one of system:serviceaccounts, system:serviceaccounts:ns, system:masters, system:authenticated), optional Impersonate-Extra-<k> (k 1..2 lower-case letters, 1 value) and a second Impersonate-Extra-<k2> (k2 one other letter), optional Impersonate-<Word> with an arbitrary canonical one-word suffix (covers Uid), optional unrelated header; every authorizer answer symbolic
+// verif:bounds authenticated user name 1..3 bytes, <= 1 group; client headers: optional Impersonate-User (<= 3 arbitrary bytes or a well-formed service-account name), optional Impersonate-Group (1 value: <= 2 arbitrary bytes or one of system:serviceaccounts, system:masters (quick), plus system:serviceaccounts:ns, system:authenticated (thorough)), optional Impersonate-Extra-<k> (k 1..2 lower-case letters, 1 value) and a second Impersonate-Extra-<k2> (k2 one other letter), optional Impersonate-<Word> with an arbitrary canonical one-word suffix (covers Uid), optional unrelated header; every authorizer answer symbolic
 func HarnessC02Filter() {
 	// the name validators are package variables of k8s apimachinery: an arbitrary predicate stands in for them
 	apivalidation.ValidateNamespaceName = verifValidateName
@@ -165,15 +165,15 @@ func HarnessC02Filter() {
 	}
 	if hasGroup {
 		// an arbitrary short group, or one of the well-known groups a filter might be tempted to special-case
-		switch nondetRange("h.group.kind", 0, 4) {
+		switch nondetRange("h.group.kind", 0, vbound(2, 4)) {
 		case 0:
 			impGroup = nondetStringN("h.group.value", 2)
 		case 1:
 			impGroup = "system:serviceaccounts"
 		case 2:
-			impGroup = "system:serviceaccounts:ns"
-		case 3:
 			impGroup = "system:masters"
+		case 3:
+			impGroup = "system:serviceaccounts:ns"
 		default:
 			impGroup = "system:authenticated"
 		}
